@@ -42,6 +42,8 @@ Step == steps < MaxSteps /\ steps' = steps + 1
 \* kind: "login" (with password pw), "logout", "chpw" (cur, new), "patchcfg", "get" (any other route)
 Request(kind, cookie, origin, site, pw, newpw, auth) ==
     /\ Step
+    \* (the model has NSessions session slots: a login that would need one more is not a step of the bounded model)
+    /\ (kind = "login" /\ ~CrossSite(origin, site) /\ ~Live(cookie) /\ pw = pwd) => NextHandle # 0
     /\ IF CrossSite(origin, site)
        THEN last' = Resp("403", "none") /\ UNCHANGED <<st, pwd, cfgver>>
        ELSE IF auth /\ ~Live(cookie)
